@@ -45,8 +45,10 @@ def demo_features(text):
     return sorted(set(feats))
 
 
-def run_demo(cwd, feats):
+def run_demo(cwd, feats, cargo_args=None):
     f = f" --features {','.join(feats)}" if feats else ""
+    if cargo_args:
+        f = " " + cargo_args
     code, out = sh(f"cargo test --offline --test seed_demo{f}", cwd)
     passed = sum(int(m) for m in re.findall(r"test result: \w+\. (\d+) passed", out))
     failed = sum(int(m) for m in re.findall(r"test result: \w+\. \d+ passed; (\d+) failed", out))
@@ -86,9 +88,13 @@ def main():
             text = open(demo).read()
             feats = demo_features(text)
             shutil.copy(demo, os.path.join(WT, "tests", "seed_demo.rs"))
-            c1, p1, f1, o1 = run_demo(WT, feats)
+            cargo_args = None
+            if os.path.exists(f"{outdir}/{ab}.cargo_args"):
+                # a demonstration that only exists in another feature set (stated by its author)
+                cargo_args = open(f"{outdir}/{ab}.cargo_args").read().strip()
+            c1, p1, f1, o1 = run_demo(WT, feats, cargo_args)
             sh("git reset -q HEAD -- . ; git checkout -- . ; git clean -fdq src unimock_macros", WT)
-            c0, p0, f0, o0 = run_demo(WT, feats)
+            c0, p0, f0, o0 = run_demo(WT, feats, cargo_args)
             os.remove(os.path.join(WT, "tests", "seed_demo.rs"))
             ok = (c1 != 0 and (f1 > 0 or "error" in o1)) and (c0 == 0 and f0 == 0 and p0 > 0)
             if not ok:
@@ -111,6 +117,7 @@ def main():
                 "source": "independent sub-agent given only the property text and a scratch worktree",
                 "needs_to_manifest": "see NOTES.md (section for change %s)" % ab,
                 "demo_features": feats,
+                "demo_cargo_args": cargo_args,
                 "confirmed": {
                     "base_commit": subprocess.run(["git", "-C", "/repo", "rev-parse", "--short", "HEAD"], capture_output=True, text=True).stdout.strip(),
                     "suite_with_change": f"cargo test --workspace --no-fail-fast --offline: {passed} passed, {failed} failed",
